@@ -1405,7 +1405,6 @@ impl<'input, T: Input> Scanner<'input, T> {
         self.skip_non_blank();
 
         if tok == TokenType::FlowMappingStart {
-            self.flow_mapping_started = true;
             self.implicit_flow_mapping_states
                 .push(ImplicitMappingState::ExplicitMapping);
         } else {
